@@ -748,6 +748,11 @@ type httpError interface {
 
 func buildRequestURL(apiHost, dataset string) (string, error) {
 	escapedDataset := url.PathEscape(dataset)
+	// PathEscape leaves dots alone, and JoinPath would resolve a dataset that
+	// is named "." or ".." as a relative path segment and post to another path.
+	if dataset == "." || dataset == ".." {
+		escapedDataset = strings.ReplaceAll(dataset, ".", "%2E")
+	}
 
 	return url.JoinPath(apiHost, "/1/batch", escapedDataset)
 }
